@@ -278,6 +278,9 @@ func (g *Gen) evalIdent(ctx *specCtx, name string) Val {
 			// not declared yet on this path: a local reads as its zero value before its declaration
 			return g.zeroVal(a.Type().(*types.Pointer).Elem())
 		}
+		if pr, ok := ctx.st.regs[a].(PtrV); ok {
+			return g.loadHeap(ctx.st, pr)
+		}
 		if pr, ok := g.regs[a].(PtrV); ok {
 			return g.loadHeap(ctx.st, pr)
 		}
